@@ -1,5 +1,7 @@
 import UberjobModel.Lemmas.CacheSpec
 import UberjobModel.Lemmas.CacheHistory
+import UberjobModel.Lemmas.ExecFinal
+import UberjobModel.Props.C04
 /-!
 # C05 — exactly the out-of-date stored values are rebuilt; a repeated run does nothing
 
@@ -40,6 +42,77 @@ theorem C05_idempotent {P : LPlan} (hP : P.WF) {w0 : World} (hg : Good P w0) {F 
     (hOrder : ∀ q tq k tk, (q, tq) ∈ linOf ops → (k, tk) ∈ linOf ops → q ≠ k → Reach P q k → tq < tk) :
     ∀ j, isStale P (applyOps P w0 ops) F j = false :=
   (complete_run_correct hP hg hnd hok hnodup hOnlyStale hAllStale hFresh hOrder).1
+
+/-! ### End to end (stale check + physical plan + engine + stores; see Props/C03.lean for the setting) -/
+
+open Uberjob.Phys Uberjob.Exec in
+/-- **In every reachable state of every schedule** — successful, failing or cut short: a stored value is rewritten only
+    if it is registered as a non-source and out of date; an up-to-date stored value (and a source) is never recomputed
+    (its own call never begins); and a store is read only through its own read node. -/
+theorem C05_end_to_end_only_stale {P : Input} {w0 : World} {F : Option Int} {c0 : Int} (S : Setup P w0 F c0)
+    {cfg : Engine.Cfg} {s : Engine.St} (h : Engine.Reach (engineGraph P) cfg s) :
+    (∀ i, code (.write i) ∈ s.begun → P.regOf i = some false ∧ isStale P.toLPlan w0 F i = true) ∧
+    (∀ i sr, P.regOf i = some sr → (sr = true ∨ isStale P.toLPlan w0 F i = false) → code (.orig i) ∉ s.begun) ∧
+    s.begun.Nodup := by
+  refine ⟨?_, ?_, Engine.C04_once (engine_wf P) h⟩
+  · intro i hb
+    obtain ⟨h1, h2⟩ := write_node_reg S.wf (begun_built S h (xinv_reach S h) hb).2
+    exact ⟨h1, by rw [← S.stale]; exact h2⟩
+  · intro i sr hr hns hb
+    refine kept_orig_pruned S.wf hr ?_ (begun_built S h (xinv_reach S h) hb).1
+    rcases hns with h1 | h1
+    · exact Or.inl h1
+    · exact Or.inr (by rw [S.stale]; exact h1)
+
+open Uberjob.Phys Uberjob.Exec in
+/-- **A run that returns normally, under ANY schedule, has rewritten exactly the out-of-date stored values — and
+    afterwards nothing is out of date**: the stale set of a run repeated immediately (same `fresh_time`) is empty, so its
+    physical plan contains no write node, and with no output requested no call and no read (C09/C14). -/
+theorem C05_end_to_end {P : Input} {w0 : World} {F : Option Int} {c0 : Int} (S : Setup P w0 F c0)
+    {cfg : Engine.Cfg} (hw : 1 ≤ cfg.workers) {s : Engine.St} (h : Engine.Reach (engineGraph P) cfg s)
+    (hc : s.coord = .returned false) (hf : s.failed = []) :
+    (∀ i, code (.write i) ∈ s.okd ↔ P.regOf i = some false ∧ isStale P.toLPlan w0 F i = true) ∧
+    ∀ j, isStale P.toLPlan (execOrder P (initX w0 c0) s.okd).w F j = false := by
+  have hL := toLPlan_wf S.wf
+  have I := xinv_reach S h
+  have hall := (Engine.C04_exact (engine_wf P) hw h (rank := id) (engine_ranked S.wf) hc hf).2
+  have hi := Engine.inv_reach (engine_wf P) h
+  have hwr : ∀ i, code (.write i) ∈ s.okd ↔ P.regOf i = some false ∧ isStale P.toLPlan w0 F i = true := by
+    intro i
+    constructor
+    · intro hm
+      obtain ⟨h1, h2⟩ := write_node_reg S.wf (okd_node h hm)
+      exact ⟨h1, by rw [← S.stale]; exact h2⟩
+    · rintro ⟨h1, h2⟩
+      exact (hall _).mpr (write_kept S.wf h1 (by rw [S.stale]; exact h2))
+  refine ⟨hwr, ?_⟩
+  apply complete_run_fresh hL (w0 := w0) (F := F) (lin := Exec.linOf s.okd (execOrder P (initX w0 c0) s.okd).w)
+  · intro j hj
+    by_cases hm : code (.write j) ∈ s.okd
+    · obtain ⟨t, ht, _⟩ := I.written j hm
+      exact absurd (Exec.mem_linOf.mpr ⟨hm, by simp [World.mtime, ht]⟩) (hj t)
+    · exact I.untouched j hm
+  · intro j t hm; exact (Exec.mem_linOf.mp hm).2
+  · intro j t hm
+    obtain ⟨h1, h2⟩ := (hwr j).mp (Exec.mem_linOf.mp hm).1
+    exact ⟨⟨false, h1⟩, h2⟩
+  · intro j sj hreg hst
+    cases sj with
+    | true => rw [← S.stale, S.srcFresh j hreg] at hst; cases hst
+    | false =>
+      have hm := (hwr j).mpr ⟨hreg, hst⟩
+      obtain ⟨t, ht, _⟩ := I.written j hm
+      exact ⟨t, Exec.mem_linOf.mpr ⟨hm, by simp [World.mtime, ht]⟩⟩
+  · intro j t hm
+    obtain ⟨hm1, hm2⟩ := Exec.mem_linOf.mp hm
+    obtain ⟨t', ht', hc'⟩ := I.written j hm1
+    have : t = t' := by simp [World.mtime, ht'] at hm2; exact hm2.symm
+    subst this
+    exact ⟨below_mono S.below hc', fun f hf' => Int.le_trans (S.fresh f hf') hc'⟩
+  · intro q tq k tk hq hk hne hr
+    obtain ⟨hq1, hq2⟩ := Exec.mem_linOf.mp hq
+    obtain ⟨hk1, hk2⟩ := Exec.mem_linOf.mp hk
+    exact I.order q k tq tk hne hq1 hk1 hq2 hk2 hr
 
 /-- The facts about caching.py / pruning.py the model relies on still hold in the current source. -/
 theorem C05_source_shape : facts.ok = true := by decide
